@@ -48,6 +48,8 @@ def scenarios(tier, seed):
         sc.append(('datum', '(datum %s %s)' % (hx(st), node.gen(r, 0))))
     for i in range(6 if tier == 'quick' else 40):
         sc.append(('datum-ser', '(datum-ser %d %s)' % (i * 7 + 3, rng.choice(['', '1', '16', '1024']))))
+    for i in range(8 if tier == 'quick' else 60):
+        sc.append(('datum-ser', '(datum-ser2 %d)' % (i * 5 + 1)))      # struct order != schema order
     for i in range(6 if tier == 'quick' else 60):
         r = rng.fork(1000 + i)
         node, _ = gen_case_schema(r, max_depth=2)
